@@ -13,7 +13,7 @@ CHECKS = {
    text="The routing function is a TLA+ operator; TLC checks on the design that every method string has exactly one disposition and one reply and leaves the connection reading, and validates the traces of every enumerated string (all strings over {.,a,b,c} up to a bound, near-misses of registered names and of the built-in interface) sent to a real service with each of three registration sets, followed by a probe call on the same connection.",
    note="Trusted: TLC; recorder classification of reply frames (error name + the single parameter); strings are valid UTF-8. Non-ASCII labels are represented by tokens (U1) concretised by the driver."),
  "C10": dict(cat="model_checking", ref="DESIGN.md §3.1, §6 C10",
-   technique="Conn.tla model-checked (safety + liveness Released under weak fairness) over hostile stream scenarios incl. abort at every symbol offset; scenarios replayed on the real service (also with a concurrent well-behaved connection, and with the cut at every byte offset), traces validated by TLC; process crash = violation",
+   technique="Conn.tla model-checked (safety + liveness Released under weak fairness) over hostile stream scenarios incl. abort at every symbol offset; scenarios replayed on the real service (also with a concurrent well-behaved connection, and with the cut at every byte offset), traces validated by TLC; process crash = violation; the repository's certification service as a separate process: Cert.tla model-checked (StaysUp, refuted under each of three named deviations), TLC-generated histories (hostile: legal nulls, a list matching at shifted indexes, a full id table; wild: every call shape) performed over raw connections and judged by CertTrace.tla",
    text="TLC proves on the design that garbage and partial frames are never dispatched or answered, that the connection is released after the peer disappears and the counter returns to zero, and that a neighbour connection is unaffected; the hostile streams are then sent to the real service and each trace (client writes, dispatches, replies, EOF, active-connection sample, final Shutdown) must be explainable by the spec.",
    note="Trusted: TLC; kernel unix-socket semantics (write to a vanished peer may succeed or fail: both allowed by the spec); quiescence detection by counting listener/connection wrappers; 10 s watchdog for hangs."),
  "C14": dict(cat="model_checking", ref="DESIGN.md §3.2, §6 C14",
@@ -77,11 +77,11 @@ CHECKS = {
    text="Bounded-exhaustive and random exploration with a trivial oracle (returns, no panic, tree xor error); the model explains why slices stay in range and reproduces the original '#'-at-end overshoot.",
    note="Exploration level: the property is a totality claim, the verdict comes from executing the real parser. Trusted: recover()/watchdog harness."),
  "C07": dict(cat="translation_validation", ref="DESIGN.md §3.5, §6 C07",
-   technique="program space defined in TLA+ (IdlProg.tla: every type tree at five positions packed per description, name classes, keyword field names, typeless errors, recursive types, a named type on its own or taken by one method, minimal descriptions; text styles plain / documented / CRLF / documentation mentioning the generator's own identifiers and placeholder) enumerated by TLC; each program run through the generator binary built from /repo twice, all emitted packages compiled in one scratch module against /repo and asked for their name/description; facts judged by TLC through GenTrace.tla (PkgName defined in TLA+)",
+   technique="program space defined in TLA+ (IdlProg.tla: every type tree at five positions packed per description, name classes, keyword field names, typeless errors, recursive types, a named type on its own or taken by one method, minimal descriptions; text styles plain / documented / CRLF / documentation mentioning the generator's own identifiers and placeholder) enumerated by TLC; each program run through the generator binary built from /repo twice, all emitted packages compiled in one scratch module against /repo and asked for their name/description; facts judged by TLC through GenTrace.tla (PkgName defined in TLA+); the certification program of the repository is generated and compiled from the working tree",
    text="For every program of the stated domain: the generator terminates without crash, writes exactly one file whose package name is PkgName(interface name), byte-identical on a second run, the Go toolchain compiles it against this repository, and the compiled package reports the interface name and the description text; failing packed programs are split per member so that a finding names the member.",
    note="Trusted: the Go toolchain decides 'compiles'; TLC evaluates the domain, PkgName and the conjunction of facts. Open known finding F12 (error parameter named 'error'); F15-F17 found by the text styles and fixed."),
  "C08": dict(cat="translation_validation", ref="DESIGN.md §3.8, §6 C08",
-   technique="programs of IdlProg.tla (TLC-enumerated) compiled with the generator built from /repo; per program a test implementation and a client are emitted from the same tree and run: generated client stubs -> recording proxy -> generated dispatcher -> implementation and back; each call becomes one event judged by TLC through Stub.tla (dispositions per mode, conjunction of wire / implementation / client facts)",
+   technique="programs of IdlProg.tla (TLC-enumerated) compiled with the generator built from /repo; per program a test implementation and a client are emitted from the same tree and run: generated client stubs -> recording proxy -> generated dispatcher -> implementation and back; each call becomes one event judged by TLC through Stub.tla (dispositions per mode, conjunction of wire / implementation / client facts); the repository's own description end to end: the certification program built from the working tree (generator output placed by go build -overlay), spec Cert.tla (table of client ids shared by two connections, checks in the code's order, more / oneway), TLC-generated call histories judged by CertTrace.tla",
    text="Every method of every compiling program is called through its generated stub with generated values of every declared type; the wire call must name <interface>.<Method> and carry exactly the declared field names with the reference encoding, the implementation must receive equal Go values, replies and generated error helpers (also of errors declared without parameters) must arrive as equal values or the matching typed error, the generated Go types must take the reference JSON encoding of the declared types, un-overridden methods answer MethodNotImplemented, unknown methods MethodNotFound, undecodable parameters InvalidParameter, and more/oneway/upgrade pass through Send/Upgrade unchanged.",
    note="Trusted: the harness's reference encoder / structural comparer and its Go emitter; TLC judges dispositions. Depth 1 (quick) / 2 (thorough)."),
 }
